@@ -1,7 +1,9 @@
-package plain_test
+package scratch
+
+// D97 (C04): failed (panicked) before the fix commit; see known_findings.json.
 
 // Pre-existing (unchanged tree), marginal. Place in encoding/plain and run:
-//   go test -vet=off -count=1 -timeout 120s -run TestPreexistingFixedLenByteArraySizeZero ./encoding/plain/
+//   go test -vet=off -count=1 -timeout 120s -run TestD97FixedLenByteArraySizeZero ./encoding/plain/
 //
 // PLAIN.EncodeFixedLenByteArray accepts size 0 (it only rejects size < 0 and
 // size > MaxFixedLenByteArraySize) but PLAIN.DecodeFixedLenByteArray, which
@@ -18,7 +20,7 @@ import (
 	"github.com/parquet-go/parquet-go/encoding/plain"
 )
 
-func TestPreexistingFixedLenByteArraySizeZero(t *testing.T) {
+func TestD97FixedLenByteArraySizeZero(t *testing.T) {
 	for _, e := range []encoding.Encoding{new(plain.Encoding), new(delta.ByteArrayEncoding)} {
 		func() {
 			defer func() {
